@@ -64,7 +64,8 @@ S0 == [ mem    |-> <<>>,                       \* Seq([k, v, loc, age]) FIFO ord
         gate   |-> FALSE,                      \* device writes held
         active |-> TRUE,
         stuck  |-> FALSE,
-        prob   |-> FALSE,                      \* every block is marked for imminent reclaim (probation): disk hits come back Old                      \* close() was called with device writes held: it cannot return (terminal)
+        prob   |-> FALSE,
+        big    |-> {},                         \* versions whose entry is larger than the disk tier accepts (refused by the flusher)                      \* every block is marked for imminent reclaim (probation): disk hits come back Old                      \* close() was called with device writes held: it cannot return (terminal)
         truth  |-> [k \in Keys |-> 0],
         loc    |-> [k \in Keys |-> "none"],    \* placement advice of the version that is truth[k]
         nv     |-> 0,
@@ -100,6 +101,8 @@ Enqueue(T, k, v, age) ==
          ELSE T1
     ELSE IF ~T.active \/ age = "young"
     THEN [T1 EXCEPT !.keeper[k] = 0]            \* PieceRef dropped at once: removes the keeper entry of the key
+    ELSE IF v \in T.big
+    THEN [T1 EXCEPT !.keeper[k] = 0, !.seq = @ + 1, !.shed = @ \cup {k}]   \* over the per-entry limit: the flusher drops it
     ELSE IF Cardinality({i \in DOMAIN T.buf : T.buf[i][1] = "e"}) >= BufCap
     THEN [T1 EXCEPT !.keeper[k] = 0, !.seq = @ + 1, !.shed = @ \cup {k}]   \* buffer overflow: the flusher drops the piece
     ELSE [T1 EXCEPT !.keeper[k] = v, !.seq = @ + 1, !.shed = @ \ {k},
@@ -207,13 +210,14 @@ DiskDelete(T, k) ==
               !.buf = Append(@, <<"t", Hash[k], T.seq>>)]
 
 \* insert_with_properties(k, v, location); hold = the caller keeps the returned handle (else dropped at once)
-InsertGen(k, nt, hold) ==
+InsertAny(k, nt, hold, isBig) ==
     /\ S.active
     /\ LET T == Begin(S)
            loc == KeyLoc[k]
            v == T.nv + 1
            T0 == [T EXCEPT !.nv = v, !.truth[k] = v, !.loc[k] = loc, !.vkey = Append(@, k),
-                           !.touched = @ \cup {k}, !.late = @ \ {k}, !.revived = @ \ {k}]
+                           !.touched = @ \cup {k}, !.late = @ \ {k}, !.revived = @ \ {k},
+                           !.big = IF isBig THEN @ \cup {v} ELSE @]
            T1 == IF Writer /\ loc = "ondisk" THEN [T0 EXCEPT !.enq = Append(@, Hash[k]), !.enqv = Append(@, v)] ELSE T0
            T2 == IF loc = "ondisk"
                  THEN \* phantom: the old memory copy leaves (replace), the new record is never resident.
@@ -227,8 +231,12 @@ InsertGen(k, nt, hold) ==
                  ELSE LET T3 == MemInsert(T1, k, v, loc, "fresh") IN
                       IF Policy = "woi" /\ loc # "inmem" THEN Enqueue(T3, k, v, "fresh") ELSE T3 IN
        S' = IF nt THEN T2 ELSE Pump(T2)
-    /\ out' = [op |-> [a |-> IF hold THEN "ins_h" ELSE IF nt THEN "ins_nt" ELSE "ins", k |-> k, loc |-> KeyLoc[k]], res |-> 0]
+    /\ out' = [op |-> [a |-> IF isBig THEN "ins_big" ELSE IF hold THEN "ins_h" ELSE IF nt THEN "ins_nt" ELSE "ins",
+                       k |-> k, loc |-> KeyLoc[k]], res |-> 0]
 
+InsertGen(k, nt, hold) == InsertAny(k, nt, hold, FALSE)
+\* an entry larger than the disk tier accepts: it lives in memory; every hand-off to the disk tier is refused
+InsertBig(k) == InsertAny(k, FALSE, FALSE, TRUE)
 Insert(k) == InsertGen(k, FALSE, FALSE)
 \* insert immediately followed by the caller's next call (the flusher task does not run in between)
 InsertNoTurn(k) == InsertGen(k, TRUE, FALSE)
@@ -377,7 +385,7 @@ Reopen ==
     /\ ~S.active
     /\ S' = [S0 EXCEPT !.disk = S.disk, !.tlog = S.tlog, !.index = Recovered(S), !.seq = MaxSeq(S) + 1,
                       !.truth = S.truth, !.loc = S.loc, !.nv = S.nv, !.vkey = S.vkey, !.touched = {},
-                      !.shed = S.shed, !.late = S.late, !.revived = S.revived]
+                      !.shed = S.shed, !.late = S.late, !.revived = S.revived, !.big = S.big]
     /\ out' = [op |-> [a |-> "reopen"], res |-> 0]
 
 -------------------------------------------------------------------------------
